@@ -240,10 +240,14 @@ def base_space():
 
 def configs(tier, rng):
   jobs = []
-  nks = [2, 3, 4] if tier == 'quick' else [2, 3, 4, 5, 6]
+  nks = [2, 3, 4, 5] if tier == 'quick' else [2, 3, 4, 5, 6]
   for i, base in enumerate(base_space()):
     for nk in nks:
-      if tier == 'quick' and nk == 4 and (i % 3):
+      # the even / odd pair groups of the convexity projection exist or not depending on the number of heights:
+      # every keypoint count 2..5 for convexity configurations; otherwise 4 for a third and no 5 in the quick tier
+      if tier == 'quick' and base['conv'] == 0 and (nk == 5 or (nk == 4 and (i % 3))):
+        continue
+      if tier == 'quick' and base['conv'] != 0 and nk == 5 and (base['clamp_min'] or base['clamp_max']):
         continue
       for units in ((1, 2) if tier == 'thorough' or nk == 3 else (1 + (i + nk) % 2,)):
         cfg = dict(base, nk=nk, units=units)
